@@ -36,6 +36,10 @@ CHECKS['C09'] = ('model_checking', 'path-forking symbolic execution of the unmod
     'Bounded exhaustive exploration of all histories of convergence/divergence/too-slow/iteration-limit outcomes with K free residuals (quick 6, thorough 8) and 2 free line searches over a grid of concrete increment settings: reported states equilibrated for their load factor, load factors strictly increasing in (0,1], snapshots unmodified, bounded steps, final state.',
     'Histories beyond K non-benign residuals, settings outside the grid and the arc-length solver are outside; user callables opaque; sparse.solve stubbed; one recorded known finding (final factor within 1e-3 of 1).',
     'DESIGN.md section 4 C09')
+CHECKS['C11'] = (OTHER, 'symbolic execution of the real Panel.uvw/strain/stress over the de-Cythonised field kernels incl. the num_cores chunking wrappers (bounds-checked pointer views) vs series/Donnell/F*strain oracle on shared function atoms; z3 qfnra-nlsat per value; exact-rational replay; recorded findings characterised by a second obligation family',
+    'Bounded symbolic verification for all amplitudes, evaluation points, flags, geometry: u,v,w, rotations, six strains (linear and von-Karman), six resultants for the NLterms requested, for every chunk count 1..3 (6) and point count 1..7 (13) incl. sizes not divisible by the chunk count; caller arrays unchanged.',
+    'OpenMP scheduling not modelled (chunks sequential, disjointness checked); known finding F2 (quadratic terms) listed with a characterising obligation so that any other deviation is still reported.',
+    'DESIGN.md section 4 C11')
 NA = {
     'C15': 'eigenvalue monotonicity/convergence for pencils of size 48..768 is not a bounded first-order query any installed solver can decide; the algebraic ingredients (exact Hessians, exact tables, nestedness) are decided under C02-C04 and C10 (DESIGN.md section 5)',
 }
